@@ -34,9 +34,10 @@
   containers and the REAL completion order of the supplier calls.
 -/
 import MdProofs.Lemmas.Det
+import MdProofs.Lemmas.DetCfi
 import MdProofs.C12
 namespace MdModel.Det
-open MdModel
+open MdModel MdModel.Gen.Regs
 
 /-! ASCII names used by the witnesses (byte strings) -/
 abbrev nCpu : List Nat := [77, 97, 120, 32, 99, 112, 117, 32, 116, 105, 109, 101]  -- "Max cpu time"
@@ -47,6 +48,12 @@ abbrev nX19 : List Nat := [120, 49, 57]  -- "x19"
 abbrev nX20 : List Nat := [120, 50, 48]  -- "x20"
 abbrev nSp : List Nat := [115, 112]  -- "sp"
 abbrev nPc : List Nat := [112, 99]  -- "pc"
+abbrev nX30 : List Nat := [120, 51, 48]  -- "x30"
+abbrev nLr : List Nat := [108, 114]  -- "lr"
+abbrev nR11 : List Nat := [114, 49, 49]  -- "r11"
+abbrev nR13 : List Nat := [114, 49, 51]  -- "r13"
+abbrev nR14 : List Nat := [114, 49, 52]  -- "r14"
+abbrev nR15 : List Nat := [114, 49, 53]  -- "r15"
 abbrev nBogus : List Nat := [98, 111, 103, 117, 115]  -- "bogus"
 abbrev nXdll : List Nat := [120, 46, 100, 108, 108]  -- "x.dll"
 abbrev nYdll : List Nat := [121, 46, 100, 108, 108]  -- "y.dll"
@@ -103,39 +110,99 @@ example :
 /-! ## 2. "across repeated runs": registers recovered by the remaining STACK CFI rules -/
 
 /-- **C13.2** `cfi_rules_order_free`: the caller register file after the remaining-register loop is
-    the same for every iteration order of the rule map — with NO hypothesis on aliasing: two
-    labels may denote one register (`fp`/`x29`); the sort by label makes the later NAME win. -/
+    the same for every iteration order of the rule map — for EVERY label table `W.canon` (any
+    function from labels to registers: every alias relation, equivalence or not) and with NO
+    hypothesis on aliasing: two labels may denote one register (`fp`/`x29`, `r11`/`fp`, `r13`/`sp`
+    …); the sort by label makes the later NAME win. -/
 theorem cfi_rules_order_free (W : Walker) (s : Regs) (iter iter' : List Rule)
     (nd : (iter.map (·.1)).Nodup) (hp : iter.Perm iter') :
     walkRest W s iter' = walkRest W s iter := by
   unfold walkRest
   rw [isort_keyLe_perm nd hp]
 
-/-- the loop before fix c84fd4e (F15) depended on the iteration order as soon as two labels alias:
-    `fp: 5` and `x29: 6` leave `fp = 6` or `fp = 5`. -/
+/-- … in particular for the table of each of the nine CPU contexts, as generated from
+    minidump/src/context.rs by translators/regs.py (`MdModel.Gen.Regs`, interpreted by
+    `MdModel.Regs.memoize`, C18): X86, AMD64, ARM (`r11`/`fp`, `r13`/`sp`, `r14`/`lr`, `r15`/`pc`),
+    ARM64 and ARM64_OLD (`x29`/`fp`, `x30`/`lr`), PPC, PPC64, MIPS, SPARC (`o0`…`i7` window names). -/
+theorem cfi_rules_order_free_cpu (c : Gen.Regs.Ctx) (s : Regs) (iter iter' : List Rule)
+    (nd : (iter.map (·.1)).Nodup) (hp : iter.Perm iter') :
+    walkRest (cpu c) s iter' = walkRest (cpu c) s iter :=
+  cfi_rules_order_free (cpu c) s iter iter' nd hp
+
+/-- the alias pairs of the generated tables really are aliases in the model (so the statement
+    above is not about an alias-free table): canonical register = position in `REGISTERS` -/
+example :
+    canonCpu .ARM nR11 = some 12 ∧ canonCpu .ARM nFp = some 12 ∧
+    canonCpu .ARM nR13 = some 13 ∧ canonCpu .ARM nSp = some 13 ∧
+    canonCpu .ARM nR14 = some 14 ∧ canonCpu .ARM nLr = some 14 ∧
+    canonCpu .ARM nR15 = some 15 ∧ canonCpu .ARM nPc = some 15 ∧
+    canonCpu .ARM64 nX29 = some 29 ∧ canonCpu .ARM64 nFp = some 29 ∧
+    canonCpu .ARM64 nX30 = some 30 ∧ canonCpu .ARM64 nLr = some 30 ∧
+    canonCpu .ARM64_OLD nX29 = some 29 ∧ canonCpu .ARM64_OLD nFp = some 29 ∧
+    canonCpu .ARM64 nR11 = none ∧ canonCpu .X86 nFp = none ∧ canonCpu .MIPS nFp = some 2 := by
+  decide +kernel
+
+/-- the loop before fix c84fd4e (F15) depended on the iteration order as soon as two labels alias
+    — for ANY table: labels `a ≠ b` of one register, two values the register can hold. -/
+theorem cfi_unsorted_order_dependent_of_alias (W : Walker) (a b : List Nat) (r : Nat)
+    (ha : W.canon a = some r) (hb : W.canon b = some r) (v w : Nat)
+    (hv : W.fits v = true) (hw : W.fits w = true) (hvw : v ≠ w) (s : Regs) :
+    walkRestUnsorted W s [(b, some w), (a, some v)] ≠ walkRestUnsorted W s [(a, some v), (b, some w)] := by
+  intro h
+  have := congrFun h r
+  simp [walkRestUnsorted, runRules, applyRule, setReg, ha, hb, hv, hw, upd] at this
+  exact hvw this
+
+/-- … and equally with a failing rule (`fp: 5`, `x29: .undef`): valid or unknown. -/
+theorem cfi_unsorted_clear_order_dependent_of_alias (W : Walker) (a b : List Nat) (r : Nat)
+    (ha : W.canon a = some r) (hb : W.canon b = some r) (v : Nat) (hv : W.fits v = true) (s : Regs) :
+    (walkRestUnsorted W s [(b, none), (a, some v)] r).valid ≠
+      (walkRestUnsorted W s [(a, some v), (b, none)] r).valid := by
+  simp [walkRestUnsorted, runRules, applyRule, setReg, clearReg, ha, hb, hv, upd]
+
+/-- the ARM64 witnesses of F15: `fp: 5` and `x29: 6` leave `fp = 6` or `fp = 5`. -/
 theorem cfi_unsorted_alias_order_dependent :
     ∃ (s : Regs) (iter iter' : List Rule), (iter.map (·.1)).Nodup ∧ iter.Perm iter' ∧
-      walkRestUnsorted arm64 s iter' ≠ walkRestUnsorted arm64 s iter := by
-  refine ⟨fun _ => ⟨0, false⟩, [(nFp, some 5), (nX29, some 6)],
-    [(nX29, some 6), (nFp, some 5)], by decide, List.Perm.swap _ _ _, ?_⟩
-  intro h
-  have := congrFun h 29
-  revert this
-  decide
+      walkRestUnsorted arm64 s iter' ≠ walkRestUnsorted arm64 s iter :=
+  ⟨fun _ => ⟨0, false⟩, [(nFp, some 5), (nX29, some 6)], [(nX29, some 6), (nFp, some 5)],
+    by decide, List.Perm.swap _ _ _,
+    cfi_unsorted_order_dependent_of_alias arm64 nFp nX29 29 (by decide +kernel) (by decide +kernel)
+      5 6 (by decide +kernel) (by decide +kernel) (by decide) _⟩
 
-/-- … and equally with a failing rule: `fp: 5`, `x29: .undef` leave `fp` valid or unknown. -/
 theorem cfi_unsorted_alias_clear_order_dependent :
     ∃ (s : Regs) (iter iter' : List Rule), (iter.map (·.1)).Nodup ∧ iter.Perm iter' ∧
       (walkRestUnsorted arm64 s iter' 29).valid ≠ (walkRestUnsorted arm64 s iter 29).valid :=
-  ⟨fun _ => ⟨0, false⟩, [(nFp, some 5), (nX29, none)],
-    [(nX29, none), (nFp, some 5)], by decide, List.Perm.swap _ _ _, by decide⟩
+  ⟨fun _ => ⟨0, false⟩, [(nFp, some 5), (nX29, none)], [(nX29, none), (nFp, some 5)],
+    by decide, List.Perm.swap _ _ _,
+    cfi_unsorted_clear_order_dependent_of_alias arm64 nFp nX29 29 (by decide +kernel) (by decide +kernel)
+      5 (by decide +kernel) _⟩
 
-/-- non-vacuity: on the aliased witness the current loop gives `fp = 6` (label `x29` sorts last)
-    in both orders. -/
+/-- the same on 32-bit ARM, for each of its four alias pairs (the inputs of seeded break C13-2a):
+    without the sort `r11: 5 fp: 6` (`r13`/`sp`, `r14`/`lr`, `r15`/`pc`) is order dependent. -/
+theorem cfi_unsorted_alias_order_dependent_arm :
+    ∀ p, p ∈ [(nR11, nFp), (nR13, nSp), (nR14, nLr), (nR15, nPc)] → ∀ s : Regs,
+      walkRestUnsorted arm s [(p.2, some 6), (p.1, some 5)] ≠
+        walkRestUnsorted arm s [(p.1, some 5), (p.2, some 6)] := by
+  intro p hp s
+  have hfit5 : arm.fits 5 = true := by decide +kernel
+  have hfit6 : arm.fits 6 = true := by decide +kernel
+  simp only [List.mem_cons, List.not_mem_nil, or_false] at hp
+  rcases hp with rfl | rfl | rfl | rfl
+  · exact cfi_unsorted_order_dependent_of_alias arm nR11 nFp 12 (by decide +kernel) (by decide +kernel) 5 6 hfit5 hfit6 (by decide) s
+  · exact cfi_unsorted_order_dependent_of_alias arm nR13 nSp 13 (by decide +kernel) (by decide +kernel) 5 6 hfit5 hfit6 (by decide) s
+  · exact cfi_unsorted_order_dependent_of_alias arm nR14 nLr 14 (by decide +kernel) (by decide +kernel) 5 6 hfit5 hfit6 (by decide) s
+  · exact cfi_unsorted_order_dependent_of_alias arm nR15 nPc 15 (by decide +kernel) (by decide +kernel) 5 6 hfit5 hfit6 (by decide) s
+
+/-- non-vacuity: on the aliased witnesses the current loop gives the value of the label that sorts
+    LAST in both orders (`x29` after `fp` on ARM64; `r11` after `fp` on ARM), and a value a 32-bit
+    register cannot hold clears it (F25). -/
 example :
     walkRest arm64 (fun _ => ⟨0, false⟩) [(nX29, some 6), (nFp, some 5)] 29 = ⟨6, true⟩ ∧
-    walkRest arm64 (fun _ => ⟨0, false⟩) [(nFp, some 5), (nX29, some 6)] 29 = ⟨6, true⟩ := by
-  decide
+    walkRest arm64 (fun _ => ⟨0, false⟩) [(nFp, some 5), (nX29, some 6)] 29 = ⟨6, true⟩ ∧
+    walkRest arm (fun _ => ⟨0, false⟩) [(nR11, some 5), (nFp, some 6)] 12 = ⟨5, true⟩ ∧
+    walkRest arm (fun _ => ⟨0, false⟩) [(nFp, some 6), (nR11, some 5)] 12 = ⟨5, true⟩ ∧
+    walkRest arm (fun _ => ⟨7, true⟩) [(nFp, some 6), (nR11, some (2 ^ 32))] 12 = ⟨6, false⟩ := by
+  decide +kernel
 
 /-- two rules commute when they do not hit the same register -/
 theorem applyRule_comm (W : Walker) (s : Regs) (a b : Rule)
@@ -179,8 +246,8 @@ theorem foldl_perm_of_comm {σ α : Type} (f : σ → α → σ) {l l' : List α
     rw [ih₁ comm s]
     exact ih₂ (fun a ha b hb => comm a (p₁.mem_iff.2 ha) b (p₁.mem_iff.2 hb)) s
 
-/-- **C13.2b** (= C06 `order_independent`): WITHOUT the sort the loop was order-free exactly under
-    the hypothesis that no two labels denote the same register — aliasing was the only leak. -/
+/-- **C13.2b** (= C06 `order_independent`): WITHOUT the sort the loop was order-free under the
+    hypothesis that no two labels of the map denote the same register. -/
 theorem cfi_unsorted_order_free_of_no_alias (W : Walker) (s : Regs) (iter iter' : List Rule)
     (noalias : ∀ a, a ∈ iter → ∀ b, b ∈ iter → a ≠ b → W.canon a.1 ≠ W.canon b.1 ∨ W.canon a.1 = none)
     (hp : iter.Perm iter') :
@@ -193,7 +260,108 @@ theorem cfi_unsorted_order_free_of_no_alias (W : Walker) (s : Regs) (iter iter' 
 example :
     let iter : List Rule := [(nX19, some 1), (nFp, none), (nX20, some 2), (nBogus, some 3)]
     (∀ a, a ∈ iter → ∀ b, b ∈ iter → a ≠ b → arm64.canon a.1 ≠ arm64.canon b.1 ∨ arm64.canon a.1 = none) := by
-  decide
+  decide +kernel
+
+/-- **C13.2c** aliasing was EXACTLY the leak: for a table whose registers can hold two different
+    values, the unsorted loop is order-free on all rule maps iff the table maps no two different
+    labels to one register. -/
+theorem cfi_unsorted_order_free_iff_no_alias (W : Walker) (v w : Nat)
+    (hv : W.fits v = true) (hw : W.fits w = true) (hvw : v ≠ w) :
+    (∀ (s : Regs) (iter iter' : List Rule), (iter.map (·.1)).Nodup → iter.Perm iter' →
+        walkRestUnsorted W s iter' = walkRestUnsorted W s iter) ↔
+    (∀ a b : List Nat, a ≠ b → W.canon a ≠ W.canon b ∨ W.canon a = none) := by
+  constructor
+  · intro h a b hab
+    cases hca : W.canon a with
+    | none => right; rfl
+    | some r =>
+      left
+      intro hcb
+      exact cfi_unsorted_order_dependent_of_alias W a b r hca hcb.symm v w hv hw hvw (fun _ => ⟨0, false⟩)
+        (h _ [(a, some v), (b, some w)] [(b, some w), (a, some v)]
+          (by simp [hab]) (List.Perm.swap _ _ _))
+  · intro h s iter iter' nd hp
+    apply cfi_unsorted_order_free_of_no_alias W s iter iter' _ hp
+    intro a ha b hb hab
+    by_cases hl : a.1 = b.1
+    · -- distinct entries of a map have distinct labels
+      exact absurd (eq_of_key_eq nd ha hb hl) hab
+    · exact h a.1 b.1 hl
+
+/-! ### the seeded variant C13-2a: sort only when an alias NAME is used -/
+
+/-- sorting only when some label is flagged is still order-free PROVIDED every aliasing pair of
+    labels of the map contains a flagged label … -/
+theorem cfi_sort_if_order_free_of_cover (isAlias : List Nat → Bool) (W : Walker) (s : Regs)
+    (iter iter' : List Rule) (nd : (iter.map (·.1)).Nodup) (hp : iter.Perm iter')
+    (cover : ∀ a, a ∈ iter → ∀ b, b ∈ iter → a ≠ b → W.canon a.1 = W.canon b.1 → W.canon a.1 ≠ none →
+      isAlias a.1 = true ∨ isAlias b.1 = true) :
+    walkRestSortIf isAlias W s iter' = walkRestSortIf isAlias W s iter := by
+  have hany : iter'.any (fun r => isAlias r.1) = iter.any (fun r => isAlias r.1) := by
+    rw [Bool.eq_iff_iff, List.any_eq_true, List.any_eq_true]
+    constructor
+    · rintro ⟨x, hx, h⟩; exact ⟨x, hp.mem_iff.2 hx, h⟩
+    · rintro ⟨x, hx, h⟩; exact ⟨x, hp.mem_iff.1 hx, h⟩
+  unfold walkRestSortIf
+  rw [hany]
+  split
+  · exact cfi_rules_order_free W s iter iter' nd hp
+  · rename_i hnone
+    apply cfi_unsorted_order_free_of_no_alias W s iter iter' _ hp
+    intro a ha b hb hab
+    by_cases hc : W.canon a.1 = W.canon b.1
+    · by_cases hn : W.canon a.1 = none
+      · right; exact hn
+      · exfalso
+        apply hnone
+        rw [List.any_eq_true]
+        rcases cover a ha b hb hab hc hn with h | h
+        · exact ⟨a, ha, h⟩
+        · exact ⟨b, hb, h⟩
+    · left; exact hc
+
+/-- … which holds on every CPU but SPARC when the flagged labels are THAT CPU's alias-arm keys
+    (ASCII labels): "only pay for the sort when one of the alias names is used" would have been
+    sound with the right names per architecture. -/
+theorem cfi_sort_if_own_alias_names_order_free (c : Gen.Regs.Ctx) (hc : c ≠ .SPARC) (s : Regs)
+    (iter iter' : List Rule) (nd : (iter.map (·.1)).Nodup) (hp : iter.Perm iter')
+    (ascii : ∀ r, r ∈ iter → ∀ x, x ∈ r.1 → x < 128) :
+    walkRestSortIf (armKey c) (cpu c) s iter' = walkRestSortIf (armKey c) (cpu c) s iter := by
+  apply cfi_sort_if_order_free_of_cover (armKey c) (cpu c) s iter iter' nd hp
+  intro a ha b hb hab hcan hsome
+  cases hi : (cpu c).canon a.1 with
+  | none => exact absurd hi hsome
+  | some i =>
+    have hb' : canonCpu c b.1 = some i := by
+      have : (cpu c).canon b.1 = some i := by rw [← hcan, hi]
+      exact this
+    rcases alias_needs_arm_key hc (a := a.1) (b := b.1) hi hb' with h | h | h
+    · exact absurd (eq_of_key_eq nd ha hb (labelStr_inj (ascii a ha) (ascii b hb) h)) hab
+    · left; exact h
+    · right; exact h
+
+/-- the seeded code flags ARM64's names `x29`/`x30` on EVERY architecture: on 32-bit ARM the map
+    `r11: 5 fp: 6` uses no flagged name, is not sorted, and the result depends on the iteration
+    order (likewise `r13`/`sp`, `r14`/`lr`, `r15`/`pc`). -/
+theorem cfi_sort_if_arm64_names_order_dependent_on_arm :
+    ∃ (s : Regs) (iter iter' : List Rule), (iter.map (·.1)).Nodup ∧ iter.Perm iter' ∧
+      walkRestSortIf (armKey .ARM64) arm s iter' ≠ walkRestSortIf (armKey .ARM64) arm s iter := by
+  refine ⟨fun _ => ⟨0, false⟩, [(nR11, some 5), (nFp, some 6)], [(nFp, some 6), (nR11, some 5)],
+    by decide, List.Perm.swap _ _ _, ?_⟩
+  have h1 : ([(nFp, some 6), (nR11, some 5)] : List Rule).any (fun r => armKey .ARM64 r.1) = false := by
+    decide +kernel
+  have h2 : ([(nR11, some 5), (nFp, some 6)] : List Rule).any (fun r => armKey .ARM64 r.1) = false := by
+    decide +kernel
+  unfold walkRestSortIf
+  rw [h1, h2]
+  exact cfi_unsorted_alias_order_dependent_arm (nR11, nFp) (by simp) _
+
+/-- non-vacuity of the cover hypothesis / the ASCII hypothesis: ARM's own names flag `r11`. -/
+example :
+    let iter : List Rule := [(nR11, some 5), (nFp, some 6), (nR13, none)]
+    (∀ r, r ∈ iter → ∀ x, x ∈ r.1 → x < 128) ∧ armKey .ARM nR11 = true ∧ armKey .ARM nFp = false ∧
+    armKey .ARM64 nR11 = false ∧ armKey .ARM64 nX29 = true ∧ armKey .X86 nFp = false := by
+  decide +kernel
 
 /-! ## 3. "regardless of the order and timing in which the symbol requests … complete":
       the thread list -/
@@ -544,5 +712,56 @@ example :
     (∀ e, e ∈ certPairs iter → ∀ e', e' ∈ certPairs iter → e.1 = e'.1 → e.2 = e'.2) ∧
     certReportUnsorted iter [nXdll, nYdll, nBogus] = [some [65], some [66], none] := by
   decide
+
+/-! ## 7. "byte-identical … reports": the thread-local print context (seeded break C13-2b) -/
+
+theorem printSeq_setCtx (ctx : Option Width) (ws : List Width) :
+    printSeq setCtx ctx ws = ws.map (fun w => addrChars (some w)) := by
+  induction ws generalizing ctx with
+  | nil => rfl
+  | cons w ws ih => simp [printSeq, setCtx, ih]
+
+/-- **C13.7** `print_context_history_free`: what a print shows depends on the printed state only —
+    not on the context the thread was left with (`ctx`, `ctx'`: anything earlier prints, of any
+    dumps, on this thread or worker did) and not on what is printed before it (`pre`, `pre'`). -/
+theorem print_context_history_free (ctx ctx' : Option Width) (pre pre' : List Width) (w : Width)
+    (post : List Width) :
+    (printSeq setCtx ctx (pre ++ w :: post)).drop pre.length =
+      (printSeq setCtx ctx' (pre' ++ w :: post)).drop pre'.length := by
+  rw [printSeq_setCtx, printSeq_setCtx]
+  simp [List.map_append]
+
+/-- a 32-bit dump is printed with 10-character addresses, a 64-bit one with 18, whatever came first -/
+example : printSeq setCtx none [64, 32, 64, 32] = [18, 10, 18, 10] ∧
+    printSeq setCtx (some 64) [32] = [10] := by decide
+
+/-- the variant of seeded break C13-2b (fill the context only when it is empty) makes the bytes of
+    a report depend on what the thread printed before: an x86 dump after an amd64 dump gets
+    18-character addresses, alone it gets 10. -/
+theorem print_context_once_history_dependent :
+    ∃ (ctx ctx' : Option Width) (w : Width), printSeq setCtxOnce ctx [w] ≠ printSeq setCtxOnce ctx' [w] :=
+  ⟨none, some 64, 32, by decide⟩
+
+example : printSeq setCtxOnce none [64, 32] = [18, 18] ∧ printSeq setCtxOnce none [32] = [10] := by decide
+
+/-! ## 8. "across repeated runs": register heuristics of a bit-flip candidate -/
+
+theorem heurStep_comm (near poison : Nat → Bool) (acc : Nat × Bool) (a b : Nat) :
+    heurStep near poison (heurStep near poison acc a) b = heurStep near poison (heurStep near poison acc b) a := by
+  obtain ⟨n, p⟩ := acc
+  unfold heurStep
+  cases near a <;> cases near b <;> cases poison a <;> cases poison b <;> cases p <;> simp <;> omega
+
+/-- **C13.8** `heuristics_order_free`: `nearby_registers` and `poison_registers` (hence the
+    confidence shown for a bit-flip candidate) do not depend on the order in which
+    `valid_registers()` yields the registers — the loop body commutes. -/
+theorem heuristics_order_free (near poison : Nat → Bool) (vals vals' : List Nat) (hp : vals.Perm vals') :
+    heuristics near poison vals' = heuristics near poison vals := by
+  unfold heuristics
+  exact (foldl_perm_of_comm (heurStep near poison) hp
+    (fun a _ b _ _ s => heurStep_comm near poison s a b) (0, false)).symm
+
+example : heuristics (· < 10) (· == 0xa5) [3, 0xa5, 20, 4] = (2, true) ∧
+    heuristics (· < 10) (· == 0xa5) [4, 20, 0xa5, 3] = (2, true) := by decide
 
 end MdModel.Det
